@@ -7,6 +7,7 @@ import (
 	"reflect"
 	"regexp"
 	"runtime"
+	"strconv"
 	"strings"
 	"sync"
 	"verifharness/internal/schemaref"
@@ -171,6 +172,17 @@ func c04Conforms(r *ev.Run, cfg C04Pkg, t reflect.Type, where string, text []byt
 	}
 	res := schemaref.MapResolver(cs.all)
 	root := cs.all[comp]
+	// empty objects as array elements where the components have discriminated sums: variants the mapping does not
+	// name are encoded as {} (known finding, reported once per type); the rest of the instance is judged without them
+	if strings.Contains(cfg.Components, `"discriminator"`) {
+		pruned, n := pruneEmptyElems(pv)
+		if n > 0 {
+			if ok0, why0 := schemaref.Validate(root, pv, res); !ok0 && strings.Contains(why0, "oneOf") {
+				r.Violate("json/sum-variant-outside-discriminator-mapping-encodes-empty", fmt.Sprintf("%s: a value that passes Validate() holds %d sum value(s) encoded as {} : %s (%s)", where, n, clip(text), why0), w(map[string]any{"json": clip(text), "component": comp, "reference_reason": why0}))
+				pv = pruned
+			}
+		}
+	}
 	numericLoose := false
 	if why := schemaref.Undecided(root, pv, res); why != "" {
 		if !strings.HasPrefix(why, "xcheck:") {
@@ -221,12 +233,86 @@ func c04Conforms(r *ev.Run, cfg C04Pkg, t reflect.Type, where string, text []byt
 	cntMsg := func() {
 		r.Violate("json/property-count-enforced-by-decode-not-by-validate", fmt.Sprintf("%s: a value that passes Validate() encodes to JSON violating a minProperties/maxProperties of the schema: %s (%s)", where, clip(text), why), wit)
 	}
+	// the node of the instance the reference's reason points at ("/results/0: oneOf: ...")
+	at := pv
+	if i := strings.Index(why, ": "); i > 0 && strings.HasPrefix(why, "/") {
+		for _, tok := range strings.Split(why[1:i], "/") {
+			if at == nil {
+				break
+			}
+			switch at.Kind {
+			case jsonv.Object:
+				at = at.Get(tok)
+			case jsonv.Array:
+				if n, err := strconv.Atoi(tok); err == nil && n >= 0 && n < len(at.Elems) {
+					at = at.Elems[n]
+				} else {
+					at = nil
+				}
+			default:
+				at = nil
+			}
+		}
+	}
+	compsText := cfg.Components
+	switch {
+	case strings.Contains(why, "oneOf: 0 variants") && at != nil && at.Kind == jsonv.Object && len(at.Members) == 0 && strings.Contains(compsText, `"discriminator"`):
+		// a variant of a discriminated sum that the mapping does not name (gotd_bot_api InlineQueryResult: "photo" can
+		// name only one of InlineQueryResultPhoto / InlineQueryResultCachedPhoto) has no case in the generated encoder
+		r.Violate("json/sum-variant-outside-discriminator-mapping-encodes-empty", fmt.Sprintf("%s: a value that passes Validate() holds a sum variant that is encoded as {} : %s (%s)", where, clip(text), why), w(map[string]any{"json": clip(text), "component": comp, "reference_reason": why}))
+		return
+	case strings.Contains(why, "required: member") && allOfWithSiblings(cs.all):
+		// keywords next to allOf (properties/required of the same schema object) are dropped by the generator: the type
+		// is that of the allOf member alone
+		r.Violate("json/keywords-next-to-allof-dropped", fmt.Sprintf("%s: the generated type has no member for properties declared next to an allOf; its encoding lacks required members: %s (%s)", where, clip(text), why), w(map[string]any{"json": clip(text), "component": comp, "reference_reason": why}))
+		return
+	}
+	if strings.Contains(why, "oneOf: 0 variants") && strings.Contains(compsText, `"discriminator"`) {
+		// the document's own conflict: the encoder writes the mapping key into the discriminator member, and the
+		// variants' enum for that member does not contain it (gotd_bot_api PassportElementError: discriminator "type",
+		// enum of "type" lists section names). Valid once those enums are ignored: tallied
+		names := map[string]bool{}
+		for _, c := range cs.all {
+			c.Walk(func(x *jsonv.Value) {
+				if x.Kind == jsonv.Object {
+					if d := x.Get("discriminator"); d != nil && d.Kind == jsonv.Object && d.Get("propertyName") != nil {
+						names[d.Get("propertyName").Str] = true
+					}
+				}
+			})
+		}
+		m := map[string]*jsonv.Value{}
+		for n, c := range cs.all {
+			cc := c.Clone()
+			cc.Walk(func(x *jsonv.Value) {
+				if x.Kind != jsonv.Object || x.Get("properties") == nil || x.Get("properties").Kind != jsonv.Object {
+					return
+				}
+				for _, pm := range x.Get("properties").Members {
+					if names[pm.Name] && pm.Value.Kind == jsonv.Object && pm.Value.Get("enum") != nil {
+						var keep []jsonv.Member
+						for _, mm := range pm.Value.Members {
+							if mm.Name != "enum" {
+								keep = append(keep, mm)
+							}
+						}
+						pm.Value.Members = keep
+					}
+				}
+			})
+			m[n] = schemaref.OneOfAsAnyOf(cc) // without the enums the variants overlap
+		}
+		if ok2, _ := schemaref.Validate(m[comp], pv, schemaref.MapResolver(m)); ok2 {
+			r.Count("corpus_conformance_discriminator_key_not_in_variant_enum_not_judged", 1)
+			return
+		}
+	}
 	switch {
 	case relax(false, false, true):
 		// corpus oneOf whose variants overlap (no discriminator, no disjoint required sets): the instance is valid
 		// once every oneOf is read as anyOf, i.e. it fails only because several variants match
 		r.Count("corpus_conformance_overlapping_oneof_not_judged", 1)
-	case strings.Contains(why, "null is not of type") && strings.Contains(string(jsonv.Compact(root)), `"nullable":true`):
+	case (strings.Contains(why, "null is not of type") || (at != nil && at.Kind == jsonv.Null)) && strings.Contains(compsText, `"nullable":true`):
 		// 'nullable: true' next to allOf/oneOf/anyOf or on a $ref holder: whether null is allowed there is read
 		// differently by tools (OpenAPI 3.0.3 ties nullable to a 'type' in the same schema object)
 		r.Count("corpus_conformance_null_next_to_composition_not_judged", 1)
@@ -235,7 +321,7 @@ func c04Conforms(r *ev.Run, cfg C04Pkg, t reflect.Type, where string, text []byt
 	case relax(false, true, false), relax(false, true, true), relax(true, true, false), relax(true, true, true):
 		cntMsg()
 	default:
-		r.Violate("json/corpus-encoding-violates-schema:"+whyClass(why), fmt.Sprintf("%s: a value that passes its own Validate() encodes to JSON that is invalid against component schema %s: %s ; reference: %s", where, comp, clip(text), why), wit)
+		r.Violate("json/corpus-encoding-violates-schema:"+whyClass(why)+":"+cfg.Origin+"#"+comp, fmt.Sprintf("%s: a value that passes its own Validate() encodes to JSON that is invalid against component schema %s: %s ; reference: %s", where, comp, clip(text), why), wit)
 	}
 }
 
@@ -313,6 +399,10 @@ func c04Type(r *ev.Run, pkg *Package, cfg C04Pkg, t reflect.Type, idx int) {
 					r.Count("ip_version_not_revealed_by_go_type", 1)
 				case strings.Contains(msg, "object properties number"):
 					r.Violate("json/property-count-enforced-by-decode-not-by-validate", fmt.Sprintf("%s: Validate() accepts the value but Decode rejects its encoding %s: %v", where, clip(text), derr), w(map[string]any{"json": clip(text), "error": msg}))
+				case name == "second" && strings.Contains(msg, "empty url"):
+					// a decoded value (schema default "" applied to a format: uri member) re-encodes to "", which the
+					// type's own decoder rejects
+					r.Violate("json/default-empty-uri-not-decodable", fmt.Sprintf("%s: the value decoded from %s carries the schema default \"\" for a uri member; its re-encoding %s is rejected by Decode: %v", where, "the first encoding", clip(text), derr), w(map[string]any{"json": clip(text), "error": msg}))
 				default:
 					r.Violate("json/decode-rejects-own-encoding", fmt.Sprintf("%s: Decode rejects the type's own encoding %s: %v", where, clip(text), derr), w(map[string]any{"json": clip(text), "error": msg}))
 				}
@@ -358,9 +448,20 @@ func c04Type(r *ev.Run, pkg *Package, cfg C04Pkg, t reflect.Type, idx int) {
 		}
 		// F. Go level, first leg
 		var defaults []string
+		reprDiffers := false
 		if dd := Diff(s0, s1, &DiffOptions{AllowDefaults: true, Defaults: &defaults}); dd != "" {
-			switch c := diffClass(dd); c {
-			case "optional-state", "empty-array", "length":
+			reprDiffers = true
+			switch c := diffClass(dd); {
+			case c == "optional-state" && strings.Contains(dd, "Null:struct {}{}") && strings.Contains(dd, "got <null>"):
+				// a sum with a null variant inside a nullable wrapper: "set to the null variant" and "null" are
+				// one JSON text (null) - two Go representations of the same state
+				r.Count("go_representation_differs_same_json:null-variant-of-sum", 1)
+			case untaggedField(t, dd):
+				// a property whose name is the empty string becomes a struct field without a JSON name: neither
+				// encoded nor decoded
+				r.Violate("json/member-with-empty-name-not-encoded", fmt.Sprintf("%s: decode(encode(v)) != v: %s (json %s): the struct field has no JSON name (property \"\" of the schema)", where, dd, clip(text)), w(map[string]any{"json": clip(text), "difference": dd}))
+				continue
+			case c == "optional-state" || c == "empty-array" || c == "length":
 				r.Violate("json/round-trip-changes-value:"+c, fmt.Sprintf("%s: decode(encode(v)) != v: %s (json %s)", where, dd, clip(text)), w(map[string]any{"json": clip(text), "decoded": Descr(s1), "difference": dd}))
 				continue
 			default:
@@ -370,7 +471,12 @@ func c04Type(r *ev.Run, pkg *Package, cfg C04Pkg, t reflect.Type, idx int) {
 				r.Count("go_representation_differs_same_json:"+c, 1)
 			}
 		}
-		if verr := ValidateValue(v1); verr != nil {
+		if verr := ValidateValue(v1); verr != nil && reprDiffers {
+			// the decoded value differs from the sent one in a way that is not visible in the JSON (discriminator member
+			// overwritten by its mapping key): when the document's enum for that member does not contain the mapping
+			// key (gotd_bot_api PassportElementError) the decoded value fails Validate; a property of the document
+			r.Count("decoded_value_invalid_after_representation_change_not_judged", 1)
+		} else if verr != nil {
 			r.Violate("json/decoded-value-invalid", fmt.Sprintf("%s: value decoded from own encoding fails Validate: %v", where, verr), w(map[string]any{"json": clip(text)}))
 			continue
 		}
@@ -462,4 +568,55 @@ func diffClass(d string) string {
 		return "time"
 	}
 	return "other"
+}
+
+// untaggedField: the difference "<.Field>: sent ..., got <unset>" concerns a struct field without JSON name.
+func untaggedField(t reflect.Type, dd string) bool {
+	if t.Kind() != reflect.Struct || !strings.HasPrefix(dd, ".") {
+		return false
+	}
+	name := dd[1:]
+	if i := strings.IndexAny(name, ":.[ "); i >= 0 {
+		name = name[:i]
+	}
+	f, ok := t.FieldByName(name)
+	if !ok {
+		return false
+	}
+	_, tagged := f.Tag.Lookup("json")
+	return !tagged
+}
+
+// allOfWithSiblings: some schema object of the components has allOf next to properties or required.
+func allOfWithSiblings(comps map[string]*jsonv.Value) bool {
+	found := false
+	for _, c := range comps {
+		c.Walk(func(x *jsonv.Value) {
+			if x.Kind == jsonv.Object && x.Get("allOf") != nil && (x.Get("properties") != nil || x.Get("required") != nil) {
+				found = true
+			}
+		})
+	}
+	return found
+}
+
+// pruneEmptyElems returns a copy without the empty objects that are array elements, and their number.
+func pruneEmptyElems(v *jsonv.Value) (*jsonv.Value, int) {
+	c := v.Clone()
+	n := 0
+	c.Walk(func(x *jsonv.Value) {
+		if x.Kind != jsonv.Array {
+			return
+		}
+		var keep []*jsonv.Value
+		for _, e := range x.Elems {
+			if e.Kind == jsonv.Object && len(e.Members) == 0 {
+				n++
+				continue
+			}
+			keep = append(keep, e)
+		}
+		x.Elems = keep
+	})
+	return c, n
 }
